@@ -14,6 +14,7 @@ import (
 	"runtime/debug"
 	"strings"
 	"sync"
+	"syscall"
 	"testing"
 	"testing/synctest"
 	"time"
@@ -420,6 +421,8 @@ func (ls locksim) runReadOnly(c *Case, dir string, out *Outcome) {
 	if fileHash(path) != before {
 		fail("file-changed", "the file's SHA-256 changed although it was only opened read-only")
 	}
+	// an Open that fails must not leave the file locked
+	ls.failedOpens(dir, cfg.PageSize, fail, out)
 	// CLI inspection commands
 	sim.Uninstall()
 	keysArgs := []string{"keys", path}
@@ -734,4 +737,50 @@ func (ls locksim) runProcs(c *Case, ex *lockExtra, dir string, out *Outcome) {
 	out.Evals = 1
 	out.Distinct = append(out.Distinct, mixHash(c.Run, uint64(len(calls)), 0x9c))
 	out.Sample = map[string]any{"run": c.Run, "arm": "procs (separate OS processes, real time)", "tasks": ex.Tasks}
+}
+
+// failedOpens: files that are not databases (too small, junk, both metas
+// damaged) are opened read-only and read-write; every such Open must fail and
+// afterwards nobody may hold a lock on the file (probed with a non-blocking
+// exclusive flock on a fresh descriptor). The garbage collector is paused so
+// that a leaked descriptor is not closed by a finalizer behind our back.
+func (ls locksim) failedOpens(dir string, ps int, fail func(string, string, ...any), out *Outcome) {
+	old := debug.SetGCPercent(-1)
+	defer debug.SetGCPercent(old)
+	junk := func(n int) []byte {
+		b := make([]byte, n)
+		for i := range b {
+			b[i] = byte(i*7 + 13)
+		}
+		return b
+	}
+	cases := []struct {
+		name string
+		data []byte
+	}{{"100 bytes of junk", junk(100)}, {"1500 bytes of junk", junk(1500)}, {"three pages of junk", junk(3 * ps)}}
+	for ci, cs := range cases {
+		for _, ro := range []bool{true, false} {
+			p := filepath.Join(dir, fmt.Sprintf("notadb-%d-%v", ci, ro))
+			if err := os.WriteFile(p, cs.data, 0600); err != nil {
+				continue
+			}
+			db, err := bolt.Open(p, 0600, &bolt.Options{ReadOnly: ro, Timeout: 20 * time.Millisecond})
+			if err == nil {
+				fail("opened-invalid", "Open(readOnly=%v) of %s succeeded", ro, cs.name)
+				_ = db.Close()
+				os.Remove(p)
+				continue
+			}
+			out.probe("failed-opens-probed", 1)
+			if f, ferr := os.OpenFile(p, os.O_RDWR, 0); ferr == nil {
+				if lerr := syscall.Flock(int(f.Fd()), syscall.LOCK_EX|syscall.LOCK_NB); lerr != nil {
+					fail("failed-open-keeps-lock", "Open(readOnly=%v) of %s failed (%v) but the file is still locked afterwards: no other open of it can succeed", ro, cs.name, err)
+				} else {
+					_ = syscall.Flock(int(f.Fd()), syscall.LOCK_UN)
+				}
+				_ = f.Close()
+			}
+			os.Remove(p)
+		}
+	}
 }
